@@ -216,7 +216,9 @@ __CPROVER_assigns(self->_sender, g.n, g.taken, g.rev, g.has_batch)
 __CPROVER_ensures(INV(self->_sender) && g.holder == H_ME)
 /* GetHead: the next waiter to be granted: the head of the receiver list if there is one, otherwise all new waiters are taken over with one exchange and the oldest (FIFO) /
    newest (LIFO) of them is returned; nothing is lost: the rest stays linked behind it */
-__CPROVER_ensures(OLD(g.recv_len) > 0 ? (RET == &g_recv_head && !g.has_batch) : (g.has_batch && g.taken >= 1 && RET == (FIFO ? &pool[g.taken - 1] : &pool[0]) && (FIFO ? g.rev == g.taken : g.rev == 0)))
+__CPROVER_ensures(OLD(g.recv_len) > 0 ? (RET == &g_recv_head && !g.has_batch) : (g.has_batch && g.taken >= 1 && (FIFO ? (RET == &pool[g.taken - 1] && g.rev == g.taken)
+      /* FIFO=false leaves the order open: either end of the taken list, completely reversed or not at all - nobody skipped or lost either way */
+      : ((RET == &pool[0] && g.rev == 0) || (RET == &pool[g.taken - 1] && g.rev == g.taken)))))
 {''' + c + '''}
 void harness(void) { ghost_havoc(); POOL_INIT(); Mutex* m; GetHead(m); if (!g.has_batch) VF_CANARY("from the receiver list"); else if (g.taken > 1) VF_CANARY("took over several"); else VF_CANARY("took over one"); }
 '''
